@@ -1,9 +1,11 @@
-\* non-vacuity control: without the named deviation ShortBufferAssert the model must violate NoPanic
+\* control with the pinned (unrepaired) CMsgIter::new: FixIterShort = FALSE must violate IterNeverPanics
 CONSTANTS
-  Caps = {8, 16}
+  FixIterShort = FALSE
+  FixDataSlice = TRUE
+  Caps = {16, 32}
   Sizes = {0}
   MaxMsgs = 1
   Hdr = 16
   Align = 8
 SPECIFICATION Spec
-INVARIANTS NoPanic
+INVARIANTS IterNeverPanics
